@@ -27,13 +27,25 @@ TRUSTED_BASE = [
 
 
 class Case:
-    __slots__ = ("id", "kind", "fields", "meta")
+    """One explored input.  (kind, fields) is what the extracted model evaluates; when [impl] is
+    given the real crate is driven differently for the same input (e.g. the query as a string
+    through the public string API while the model evaluates the AST that spelling denotes)."""
+    __slots__ = ("id", "kind", "fields", "meta", "impl")
 
-    def __init__(self, id, kind, fields, meta=None):
-        self.id, self.kind, self.fields, self.meta = id, kind, fields, meta or {}
+    def __init__(self, id, kind, fields, meta=None, impl=None):
+        self.id, self.kind, self.fields, self.meta, self.impl = id, kind, fields, meta or {}, impl
+
+    @staticmethod
+    def _line(kind, id, fields):
+        return "\t".join([kind, id] + [f if isinstance(f, str) else sx.dump(f) for f in fields]) + "\n"
 
     def line(self):
-        return "\t".join([self.kind, self.id] + [f if isinstance(f, str) else sx.dump(f) for f in self.fields]) + "\n"
+        return self._line(self.kind, self.id, self.fields)
+
+    def impl_line(self):
+        if self.impl is None:
+            return self.line()
+        return self._line(self.impl[0], self.id, self.impl[1])
 
 
 class Verdict:
@@ -103,6 +115,10 @@ class PropCheck:
     def judge(self, case, ans):
         raise NotImplementedError
 
+    def followups(self, case, ans):
+        """second-phase cases derived from a first-phase answer (e.g. re-query a reported path)"""
+        return []
+
     def directed_cases(self, failed_theorem):
         """enlarged search used when a proof obligation breaks"""
         return self.cases()
@@ -117,6 +133,7 @@ class PropCheck:
     def describe(self, case, ans):
         d = {"property": self.pid, "kind": case.kind, "id": case.id,
              "fields": [f if isinstance(f, str) else sx.dump(f) for f in case.fields],
+             "impl": None if case.impl is None else [case.impl[0]] + [f if isinstance(f, str) else sx.dump(f) for f in case.impl[1]],
              "meta": case.meta, "answers": {k: v for k, v in (ans or {}).items()}}
         return d
 
@@ -133,20 +150,26 @@ class PropCheck:
         return path
 
     # ----- shrinking: greedy single deletions / simplifications that keep the verdict -----
-    def shrink(self, case, is_bad, rounds=12):
+    def shrink(self, case, is_bad, rounds=40, budget_s=25.0):
         cur = case
+        deadline = time.time() + budget_s
         for _ in range(rounds):
+            if time.time() > deadline:
+                break
             cands = []
             for fi, f in enumerate(cur.fields):
                 if isinstance(f, tuple):
                     for smaller in shrink_tuple(f):
                         nf = list(cur.fields)
                         nf[fi] = smaller
-                        cands.append(Case("s%d" % len(cands), cur.kind, nf, cur.meta))
+                        if cur.impl is None and gen_valid(smaller):
+                            cands.append(Case("s%d" % len(cands), cur.kind, nf, cur.meta))
+            if cur.impl is not None and hasattr(self, "shrink_e2e"):
+                cands = self.shrink_e2e(cur)
             if not cands:
                 break
-            cands = cands[:400]
-            res = runner.run_cases([c.line() for c in cands], release=False)
+            cands = cands[:120]
+            res = run_both(cands)
             better = None
             for c in cands:
                 try:
@@ -157,7 +180,7 @@ class PropCheck:
                     continue
             if better is None:
                 break
-            cur = Case(case.id, better.kind, better.fields, better.meta)
+            cur = Case(case.id, better.kind, better.fields, better.meta, better.impl)
         return cur
 
     # ----- main -----
@@ -180,9 +203,15 @@ class PropCheck:
         cases = self.cases()
         if not pr["ok"]:
             cases = cases + [Case("d" + c.id, c.kind, c.fields, c.meta) for c in self.directed_cases(pr)]
-        res = runner.run_cases([c.line() for c in cases], release=False)
+        res = run_both(cases)
+        more = []
+        for c in cases:
+            more.extend(self.followups(c, res.get(c.id, {})))
+        if more:
+            res.update(run_both(more))
+            cases = cases + more
         if self.release_too or self.tier == "thorough":
-            res_rel = runner.run_cases([c.line() for c in cases], release=True, want_model=False)
+            res_rel = runner.run_cases([c.impl_line() for c in cases], release=True, want_model=False)
         else:
             res_rel = None
         seen_known = {}
@@ -226,8 +255,9 @@ class PropCheck:
         for (c, ans, v) in violations[:3]:
             small = c
             try:
-                small = self.shrink(c, lambda cc, aa: self.judge(cc, aa).status == "violation")
-                sans = runner.run_cases([small.line()]).get(small.id, ans)
+                sig0 = (v.detail or "")[:24]
+                small = self.shrink(c, lambda cc, aa: (lambda vv: vv.status == "violation" and (vv.detail or "")[:24] == sig0)(self.judge(cc, aa)))
+                sans = run_both([small]).get(small.id, ans)
             except Exception:
                 sans = ans
             path = self.write_replay(small, sans, v, {"original": self.describe(c, ans)})
@@ -290,6 +320,22 @@ class PropCheck:
             json.dump(ev, f, indent=1, ensure_ascii=True)
 
 
+def gen_valid(t):
+    from . import gen
+    return gen.valid_ast(t)
+
+
+def run_both(cases):
+    """model on the model lines, crate on the impl lines; answers merged by id"""
+    if all(c.impl is None for c in cases):
+        return runner.run_cases([c.line() for c in cases], release=False)
+    res = runner.run_cases([c.line() for c in cases], release=False, want_impl=False)
+    ri = runner.run_cases([c.impl_line() for c in cases], release=False, want_model=False)
+    for k, v in ri.items():
+        res.setdefault(k, {}).update(v)
+    return res
+
+
 def shrink_tuple(t):
     """strictly smaller variants of an s-expression tuple: drop one element of a variadic list,
     or replace a subtree by one of its same-sorted children"""
@@ -334,10 +380,10 @@ def replay(chk, path):
         print(json.dumps(d, indent=1))
         return 1
     build.build_all(coq_targets=["Extract.vo"])
-    c = Case("r0", d["kind"], d["fields"], d.get("meta"))
-    # fields are stored dumped; parse back the s-expressions so that judges can inspect them
-    c.fields = [sx.parse(f) if f.startswith("(") else f for f in d["fields"]]
-    ans = runner.run_cases([c.line()]).get("r0", {})
+    un = lambda fs: [sx.parse(f) if f.startswith("(") else f for f in fs]
+    impl = d.get("impl")
+    c = Case("r0", d["kind"], un(d["fields"]), d.get("meta"), (impl[0], un(impl[1:])) if impl else None)
+    ans = run_both([c]).get("r0", {})
     v = chk.judge(c, ans)
     print(json.dumps({"answers": ans, "status": v.status, "class": v.cls, "detail": v.detail}, indent=1))
     if v.status == "violation":
